@@ -45,10 +45,6 @@ except ImportError:  # pragma: no cover
     solve_poisson_robust = None
 
 TRACKED = (Grid, BaseTransform, BeckeWeights, HirshfeldWeights)
-BVP_DEFAULTS = {"tol": 1e-6, "max_nodes": 50000, "no_derivatives": True}
-IVP_DEFAULTS = {"method": "DOP853", "rtol": 1e-8, "atol": 1e-6}
-KNOWN_OPTS = ":known-defaults-written-into-options"
-KNOWN_RHS = ":known-rhs-updated-in-place"
 
 
 # ------------------------------------------------------------------------------------------------ snapshots
@@ -178,10 +174,8 @@ def canon(v, depth=0):
         return [("deep",)]
     if isinstance(v, Grid):
         out = [("grid", type(v).__name__)]
-        try:
-            out += canon(np.asarray(v.points), depth + 1) + canon(np.asarray(v.weights), depth + 1)
-        except Exception:  # noqa: BLE001
-            pass
+        if isinstance(v.points, np.ndarray) and isinstance(v.weights, np.ndarray):      # MultiDomainGrid hands out generators
+            out += canon(v.points, depth + 1) + canon(v.weights, depth + 1)
         if isinstance(v, LocalGrid) and v.indices is not None:
             out += canon(np.asarray(v.indices), depth + 1)
         return out
@@ -220,17 +214,15 @@ class _Abort(Exception):
 
 # ------------------------------------------------------------------------------------------------ the monitor
 class Mon:
-    def __init__(self, col, scen, variant, g, tier, tmp, shield=False):
+    def __init__(self, col, scen, variant, g, tier, tmp):
         self.col, self.scen, self.variant, self.g, self.tier, self.tmp = col, scen, variant, g, tier, tmp
         self.readonly = variant == "readonly"
-        self.shield = shield
         self.objs = []          # [name, obj]
         self.cbrecs = []        # (callback name, call number, returned object, snapshot at return time)
         self.outcomes = {}      # label -> canon outcome
         self.states = {}        # label -> raw state of the last call
         self.failed = {}        # case id -> collector record
         self.raised = []
-        self.has_fx = False
         self._labels = set()
         self._late = []
         self._in_call = False
@@ -262,8 +254,6 @@ class Mon:
         'cached' (returns one cached array per argument shape; only for argument-independent functions)."""
         cache = {}
         count = [0]
-        if role == "fx":
-            self.has_fx = True
 
         def wrapped(*args):
             if mode == "arg":
@@ -285,8 +275,6 @@ class Mon:
             count[0] += 1
             if isinstance(out, (np.ndarray, list)) and len(self.cbrecs) < 20000:
                 self.cbrecs.append((name, count[0], out, snap(out)))
-            if self.shield and role == "fx" and isinstance(out, np.ndarray):
-                return np.array(out, copy=True)      # the library gets a private writable copy
             return out
         wrapped.__name__ = name
         return wrapped
@@ -338,7 +326,6 @@ class Mon:
         self.outcomes[label] = [("exc", type(st["exc"]).__name__)] if st["exc"] is not None else canon(st["value"])
         if not ok and self.col.last_failure is not None:
             self.failed[cid] = self.col.last_failure
-            self._classify_opts(cid, st)
         if st["exc"] is not None:
             if not may_raise:
                 self.raised.append(f"{cid}: {type(st['exc']).__name__}: {str(st['exc'])[:100]}")
@@ -362,25 +349,6 @@ class Mon:
             self.failed[cid] = self.col.last_failure
         return ok
 
-    # ---- recorded finding 1: Poisson solvers write their defaults into the caller's option dictionary
-    def _classify_opts(self, cid, st):
-        viol = st["viol"]
-        if not viol:
-            return
-        allowed = dict(BVP_DEFAULTS)
-        allowed.update(IVP_DEFAULTS)
-        for name, _d, obj, s in viol:
-            if not isinstance(obj, dict) or s[0] != "dict":
-                return
-            old = dict(s[1])
-            now = dict(snap(obj)[1])
-            if any(k not in now or now[k] != v for k, v in old.items()):
-                return      # an existing entry was changed or removed: not the recorded behaviour
-            added = {k: obj[k] for k in obj if repr(k) not in old}
-            if not added or any(k not in allowed or type(v) is not type(allowed[k]) or v != allowed[k] for k, v in added.items()):
-                return
-        self.col.last_failure["case_id"] = cid + KNOWN_OPTS
-
 
 # ------------------------------------------------------------------------------------------------ scenario runner
 SCENARIOS = []      # (name, function, library names exercised)
@@ -393,29 +361,8 @@ def scenario(name, *funcs):
     return deco
 
 
-def _ode_helper_defect():
-    """Signature of the recorded finding 2: _rearrange_to_explicit_ode accumulates into the array it was given as fx."""
-    try:
-        from grid.ode import _rearrange_to_explicit_ode as helper
-    except ImportError:
-        return False
-    try:
-        y = np.array([[1.0, 2.0, 3.0], [4.0, 5.0, 6.0], [0.0, 0.0, 0.0]])
-        b = np.array([[0.5, 0.25, 2.0], [1.0, -1.0, 3.0], [2.0, 4.0, 8.0]])
-        fx = np.array([10.0, 20.0, 30.0])
-        keep = fx.copy()
-        with warnings.catch_warnings():
-            warnings.simplefilter("ignore")
-            out = helper(y, b, fx)
-        want = keep - b[0] * y[0] - b[1] * y[1]
-        return bool(np.allclose(fx, want, rtol=1e-14, atol=0) and not np.array_equal(fx, keep)
-                    and np.allclose(out, want / b[2], rtol=1e-14, atol=0))
-    except Exception:  # noqa: BLE001
-        return False
-
-
-def _run_variant(col, name, fn, variant, seed, tier, rep, tmp, shield=False):
-    m = Mon(col, name, variant, rng(seed, f"C20:{name}:{rep}"), tier, tmp, shield=shield)
+def _run_variant(col, name, fn, variant, seed, tier, rep, tmp):
+    m = Mon(col, name, variant, rng(seed, f"C20:{name}:{rep}"), tier, tmp)
     m.rep = rep
     np.random.seed((int(seed) * 7919 + rep * 104729 + sum(map(ord, name))) % (2**32))   # the library draws BVP start values from the global generator
     err = None
@@ -455,30 +402,6 @@ def run_scenario(col, name, fn, seed, tier, rep, notes):
             ok = col.check(cid, chk, inputs={"scenario": name, "call": label, "variant": "readonly-same-outcome"})
             if not ok and col.last_failure is not None:
                 mr.failed[cid] = col.last_failure
-        # recorded finding 2 (ODE right-hand side updated in place): a failure that disappears when the library is handed
-        # private copies of the fx results, while the helper shows exactly the in-place accumulation, is that finding.
-        pending = {v: {c: r for c, r in mons[v].failed.items() if ":known-" not in r["case_id"]} for v in mons}
-        if any(pending.values()) and any(mons[v].has_fx for v in mons) and _ode_helper_defect():
-            scratch = Collector("shielded re-run")
-            sh = {}
-            for variant in ("plain", "readonly"):
-                sh[variant], _ = _run_variant(scratch, name, fn, variant, seed, tier, rep, tmp, shield=True)
-            for label, want in sh["plain"].outcomes.items():
-                if label in sh["readonly"].outcomes and not same_canon(sh["readonly"].outcomes[label], want)[0]:
-                    sh["readonly"].failed[f"{name}:{label}:readonly-same-outcome"] = {}
-            # the shielded read-only outcomes must also agree with the unshielded plain ones where those were fine
-            for variant in ("plain", "readonly"):
-                for cid, rec in pending[variant].items():
-                    if cid in sh[variant].failed:
-                        continue
-                    label = cid.split(":")[1] if cid.count(":") >= 2 else None
-                    if cid.endswith(":readonly-same-outcome"):
-                        a, b = sh["readonly"].outcomes.get(label), sh["plain"].outcomes.get(label)
-                        if a is None or b is None or not same_canon(a, b)[0]:
-                            continue
-                    elif label not in sh[variant]._labels:
-                        continue
-                    rec["case_id"] = cid + KNOWN_RHS
     return mons
 
 
@@ -832,7 +755,7 @@ def sc_cubic(m):
     m.call("UniformGrid-origin-is-row-of-axes", UniformGrid, axes[0], axes, shape, "Rectangle")
     # interpolation on an orthogonal grid
     dshape = m.arr("dshape", [7, 8, 9], dtype=int)
-    daxes = m.arr("daxes", np.diag([0.4, -0.35, 0.3]))
+    daxes = m.arr("daxes", np.diag([0.4, 0.35, 0.3]))
     ug = m.call("UniformGrid-diagonal", UniformGrid, origin, daxes, dshape, "Rectangle")
     P = np.asarray(ug.points)
     vals = m.arr("values", 1.5 + np.sin(P[:, 0]) * np.cos(0.5 * P[:, 1]) + 0.1 * P[:, 2])
@@ -848,6 +771,8 @@ def sc_cubic(m):
     m.call("closest_point-closest", ug.closest_point, q[0], "closest")
     m.call("closest_point-origin", ug.closest_point, m.own("point-list", [float(v) for v in q[1]]), "origin")
     m.call("closest_point-skewed", UniformGrid(origin.copy(), axes.copy(), shape.copy()).closest_point, q[0], may_raise=True)
+    neg = m.call("UniformGrid-negative-axis", UniformGrid, origin, m.arr("naxes", np.diag([0.4, -0.35, 0.3])), dshape, "Alternative")
+    m.call("closest_point-negative-axis", neg.closest_point, m.arr("npoint", origin + np.array([0.9, -1.1, 0.7])), "closest")
     m.call("uniform-get_points_along_axes", ug.get_points_along_axes)
     m.call("uniform-integrate", ug.integrate, vals, vals)
     m.call("uniform-save", ug.save, os.path.join(m.tmp, f"u-{m.variant}.npz"))
@@ -1057,10 +982,17 @@ def _poisson_setup(m, natom=1, nrad=20, degree=5):
     else:
         _, centers = _molecule(m, natom)
         atgrids = [AtomGrid(radial, degrees=[degree], center=centers[i]) for i in range(natom)]
-        grid = m.own("molgrid", MolGrid(np.array([1, 8, 6][:natom]), atgrids, BeckeWeights(order=3), store=True))
+        # unit nuclear weights and (below) function values that are spherical about the own centre on every atomic segment:
+        # only then does the boundary value solver converge on grids this small
+        grid = m.own("molgrid", MolGrid(np.array([1, 8, 6][:natom]), atgrids, np.ones(sum(a.size for a in atgrids)), store=True))
     P = np.asarray(grid.points)
-    rho = sum((1.0 + 0.5 * k) * np.exp(-(1.0 + 0.3 * k) * np.sum((P - c) ** 2, axis=1)) for k, c in enumerate(centers))
-    rho = rho * (1.0 + 0.2 * (P[:, 2] - centers[0][2]) / (1.0 + np.sum((P - centers[0]) ** 2, axis=1)))
+    # spherically symmetric about every centre: the boundary value solver does not converge for the l > 0 parts of a polarised density
+    a, b = g.uniform(0.8, 1.5), g.uniform(0.0, 0.4)
+    rho = sum((1.0 + 0.5 * k) * np.exp(-(a + 0.3 * k) * np.sum((P - c) ** 2, axis=1)) * (1.0 + b * np.sum((P - c) ** 2, axis=1)) for k, c in enumerate(centers))
+    if natom > 1:
+        for k, c in enumerate(centers):
+            seg = slice(grid.indices[k], grid.indices[k + 1])
+            rho[seg] = (1.0 + 0.5 * k) * np.exp(-(a + 0.3 * k) * np.sum((P[seg] - c) ** 2, axis=1))
     f = m.arr("func_vals", rho)
     q0 = g.normal(size=(4, 3)) + centers[0]
     q0[0] = centers[0]          # the nucleus itself: r = 0
@@ -1068,22 +1000,10 @@ def _poisson_setup(m, natom=1, nrad=20, degree=5):
     return grid, tf, f, q, centers
 
 
-def _mark_options_reuse(m, label, shared, exc):
-    """The recorded finding 1 seen through its consequence: the defaults of one solver, written into the shared dictionary, are
-    rejected as unknown/duplicate keywords by the other solver."""
-    rec = m.failed.get(f"{m.scen}:{label}:{m.variant}")
-    if rec is None or ":known-" in rec["case_id"] or not isinstance(exc, TypeError) or "keyword argument" not in str(exc):
-        return
-    allowed = dict(BVP_DEFAULTS)
-    allowed.update(IVP_DEFAULTS)
-    if shared and all(k in allowed and shared[k] == allowed[k] for k in shared) and any(f"'{k}'" in str(exc) for k in shared):
-        rec["case_id"] += KNOWN_OPTS
-
-
 @scenario("poisson-atom", "solve_poisson_bvp", "solve_poisson_ivp", "interpolate_laplacian", "_solve_poisson_bvp_atomgrid", "_solve_poisson_ivp_atomgrid",
           "_interpolate_molgrid_helper")
 def sc_poisson(m):
-    ag, tf, f, q, _ = _poisson_setup(m, 1, nrad=18 if not _big(m) else 30)
+    ag, tf, f, q, _ = _poisson_setup(m, 1, nrad=16 if not _big(m) else 30, degree=3 if not _big(m) else 5)
     pot = m.call("bvp-default-options", solve_poisson_bvp, ag, f, tf)
     m.call("bvp-default-options-evaluate", pot, q)
     for name, opts in (("empty", {}), ("partial", {"tol": 1e-6}), ("complete", {"tol": 1e-6, "max_nodes": 50000, "no_derivatives": True})):
@@ -1120,7 +1040,6 @@ def sc_poisson(m):
         got = m.outcomes["shared-options-then-ivp-evaluate"]
     m.same("shared-options-then-ivp-as-fresh", got, "ivp-default-options-evaluate",
            "an empty option dictionary that went through solve_poisson_bvp no longer behaves like an empty one in solve_poisson_ivp", rtol=1e-6, atol=1e-8)
-    _mark_options_reuse(m, "shared-options-then-ivp-as-fresh", shared, m.states["shared-options-then-ivp"]["exc"])
     lap = m.call("interpolate_laplacian", interpolate_laplacian, ag, f)
     m.call("laplacian-evaluate", lap, q)
     m.call("laplacian-evaluate-cutoff", lap, q, 1e-2)
@@ -1141,7 +1060,7 @@ def sc_poisson_mol(m):
         d2 = m.own("ivp-options", {"atol": 1e-6})
         pot = m.call("ivp-molgrid-options", solve_poisson_ivp, mg, f, tf, (30.0, 1e-3), d2)
         m.call("ivp-molgrid-evaluate", pot, q)
-    nostore = MolGrid(np.array([1, 8]), list(mg.atgrids), BeckeWeights(order=3), store=False)
+    nostore = MolGrid(np.array([1, 8]), list(mg.atgrids), np.ones(mg.size), store=False)
     m.call("bvp-molgrid-not-stored", solve_poisson_bvp, nostore, f, tf, may_raise=True)
 
 
@@ -1150,7 +1069,7 @@ def sc_robust(m):
     if solve_poisson_robust is None:
         return
     g = m.g
-    ag, tf, f, q, centers = _poisson_setup(m, 1, nrad=18 if not _big(m) else 30)
+    ag, tf, f, q, centers = _poisson_setup(m, 1, nrad=16 if not _big(m) else 30, degree=3 if not _big(m) else 5)
     atnums = m.arr("atnums", [8], dtype=int)
     atcoords = m.arr("atcoords", centers.copy())
     r2 = np.sum((np.asarray(ag.points) - centers[0]) ** 2, axis=1)
@@ -1213,7 +1132,7 @@ def sc_extras(m):
     m.call("get_cov_radii", utils.get_cov_radii, m.arr("z", [1, 6, 8], dtype=int))
     m.call("dipole_moment_of_molecule", utils.dipole_moment_of_molecule, g3, m.arr("dens", g.uniform(0, 1, 4)), m.arr("coords", g.normal(size=(2, 3))),
            m.arr("charges", [1.0, 8.0]), may_raise=True)
-    m.call("convert_angular_sizes_to_degrees", AngularGrid.convert_angular_sizes_to_degrees, m.own("sizes", [6, 20, 26]))
+    m.call("convert_angular_sizes_to_degrees", AngularGrid.convert_angular_sizes_to_degrees, m.own("sizes", [6, 20, 26]), "lebedev")
     ang_grid = m.call("AngularGrid", AngularGrid, 7)
     m.call("angular-integrate", ang_grid.integrate, m.arr("angvals", g.normal(size=ang_grid.size)))
 
